@@ -129,13 +129,34 @@ func (w *World) emit(from *Sess, to *Sess, data []byte, kind, plain string) *Wir
 // Handshake asks s for its current handshake message and puts it on the wire.
 func (w *World) Handshake(s *Sess) *Wire {
 	var out []byte
-	if w.guard(s, "Handshake", func() { out = s.S.Handshake(nil) }) {
+	if w.guard(s, "Handshake", func() { out = s.S.Handshake(w.scratch()) }) {
 		return nil
 	}
 	if out == nil {
 		return nil
 	}
-	return w.emit(s, s.Peer, out, "hs", "")
+	wi := w.emit(s, s.Peer, out, "hs", "")
+	poison(out)
+	return wi
+}
+
+// The Session API is append-style: what it returns belongs to the caller, and what the caller
+// passes in (the incoming message) is the caller's again once the call returns. A real caller
+// reuses both (receive buffers of a transport, one scratch buffer for all output), so the
+// harness overwrites them as soon as it has copied what it needs: a Session that kept a
+// reference to either is found out.
+func (w *World) scratch() []byte {
+	if w.St.Bool(1, 2) {
+		return nil
+	}
+	return make([]byte, 0, 2048)
+}
+
+func poison(b []byte) {
+	b = b[:cap(b)]
+	for i := range b {
+		b[i] = 0xA5
+	}
 }
 
 type DeliverResult struct {
@@ -149,7 +170,7 @@ type DeliverResult struct {
 func (w *World) Deliver(s *Sess, data []byte) DeliverResult {
 	var r DeliverResult
 	in := append([]byte{}, data...)
-	if w.guard(s, "Deliver", func() { r.IsApp, r.Out, r.Err = s.S.Deliver(nil, in, w.Now) }) {
+	if w.guard(s, "Deliver", func() { r.IsApp, r.Out, r.Err = s.S.Deliver(w.scratch(), in, w.Now) }) {
 		r.Err = fmt.Errorf("panic")
 		return r
 	}
@@ -160,6 +181,12 @@ func (w *World) Deliver(s *Sess, data []byte) DeliverResult {
 	if r.Err == nil && !r.IsApp && len(r.Out) > 0 {
 		r.Reply = w.emit(s, s.Peer, r.Out, "hs", "")
 	}
+	if r.Out != nil {
+		mine := r.Out
+		r.Out = append([]byte{}, r.Out...)
+		poison(mine)
+	}
+	poison(in)
 	return r
 }
 
@@ -172,14 +199,18 @@ func (w *World) Send(s *Sess) (*Wire, error) {
 	copy(pt, fmt.Sprintf("P%05d:", w.nextP))
 	var out []byte
 	var err error
-	if w.guard(s, "Send", func() { out, err = s.S.Send(nil, pt, w.Now) }) {
+	ptIn := append([]byte{}, pt...)
+	if w.guard(s, "Send", func() { out, err = s.S.Send(w.scratch(), ptIn, w.Now) }) {
 		return nil, fmt.Errorf("panic")
 	}
+	poison(ptIn)
 	if err != nil {
 		return nil, err
 	}
 	s.Sent[string(pt)] = true
-	return w.emit(s, s.Peer, out, "data", string(pt)), nil
+	wi := w.emit(s, s.Peer, out, "data", string(pt))
+	poison(out)
+	return wi, nil
 }
 
 func counterOf(b []byte) (uint32, bool) {
